@@ -19,7 +19,8 @@ from typing import Any, Optional
 XSI = 'http://www.w3.org/2001/XMLSchema-instance'
 TNS = 'urn:t'
 NAMES = ['a', 'b', 'c', 'd', 'e']
-STYPES = ['xs:int', 'xs:short', 'xs:string', 'xs:boolean']
+STYPES = ['xs:int', 'xs:short', 'xs:string', 'xs:boolean', 'xs:QName']
+OTHER = 'urn:other'
 
 
 class Slow:
@@ -216,11 +217,41 @@ class N:
         self.cs: list[N] = []
         self.decls: list[tuple[str, str]] = []
         self.xsi_type: Optional[str] = None
-        self.hoist = False             # the prefix used by xsi:type is declared on the parent, not on the element itself
+        # where the prefix `t` used by xsi:type="t:D" is declared (target namespace, default-namespace style only):
+        # 'self' | 'parent' | 'inherit' (no declaration for it: an ancestor binds it - or nobody does)
+        self.tdecl = 'self'
+        self.rebind_before = False     # ask the parent to rebind `t` on the preceding sibling (must not leak to this one)
+        self.root_t = False            # the root declares xmlns:t besides the default namespace
         self.tail: Optional[str] = None
 
 
-def gen_value(rng, stype: str, perr: float, defects: list) -> str:
+def declares_t(n: 'N') -> bool:
+    """the element itself binds prefix t to the target namespace when serialised in the default-namespace style"""
+    return bool(n.xsi_type and n.tdecl == 'self') or any(c.xsi_type and c.tdecl == 'parent' for c in n.cs)
+
+
+def uses_inherited_t(n: 'N') -> bool:
+    return bool(n.xsi_type and n.tdecl == 'inherit') or any(uses_inherited_t(c) for c in n.cs)
+
+
+def gen_value(rng, stype: str, perr: float, defects: list, scope: Optional[dict] = None,
+              leak: Optional[dict] = None) -> str:
+    if stype == 'xs:QName':
+        # namespace-sensitive content: the prefix must be bound by the element or an ancestor; `leak` = prefixes bound
+        # by the one or two preceding siblings (of this element or of an ancestor) only - they are NOT in scope here
+        scope, leak = scope or {}, leak or {}
+        unbound = sorted(p for p in leak if p and p not in scope)
+        r = rng.random()
+        if unbound and r < 0.4:
+            defects.append('qname-prefix-of-preceding-sibling')
+            return rng.choice(unbound) + ':v'
+        if r < perr:
+            defects.append('qname-unmapped')
+            return 'zz9:v'
+        bound = sorted(p for p in scope if p)
+        if bound and rng.random() < 0.5:
+            return rng.choice(bound) + ':v'
+        return rng.choice(['v', 'name'])
     bad = rng.random() < perr
     if stype in ('xs:int', 'xs:short'):
         if bad:
@@ -235,12 +266,22 @@ def gen_value(rng, stype: str, perr: float, defects: list) -> str:
     return rng.choice(['s', 'text', 'x y', ''])
 
 
-def gen_node(rng, e: El, spec: Spec, perr: float, defects: list, depth: int, tagname: Optional[str] = None) -> N:
+def gen_node(rng, e: El, spec: Spec, perr: float, defects: list, depth: int, tagname: Optional[str] = None,
+             scope: Optional[dict] = None, leak: Optional[dict] = None, style: str = 'default') -> N:
+    """scope: prefix -> URI bound by the ancestors; leak: bindings made by the one or two preceding siblings of this
+    element or of an ancestor that are not in scope here (they must not be visible: namespace scope across siblings)"""
     n = N(tagname or e.name)
+    scope = dict(scope or {})
+    leak = dict(leak or {})
     if rng.random() < 0.12:
         n.decls.append((rng.choice(['p', 'q', 'p']), rng.choice(['urn:n1', 'urn:n2', 'urn:n3'])))
         if rng.random() < 0.3:
             n.decls.append(('q2', 'urn:n4'))
+    if depth == 1 and rng.random() < 0.2 and not any(p == 'q' for p, _ in n.decls):
+        # elements of the lazy depth declare / rebind prefixes more often (used or not by the following siblings)
+        n.decls.append(('q', rng.choice(['urn:n1', 'urn:n5'])))
+    scope.update(n.decls)
+    leak = {p: u for p, u in leak.items() if scope.get(p) != u}
     if e.kind == 'ref' and e.ref == 'h' or e.kind == 'h':
         # head or member of the substitution group
         if n.tag == 'm':
@@ -271,12 +312,23 @@ def gen_node(rng, e: El, spec: Spec, perr: float, defects: list, depth: int, tag
             n.cs.append(x)
             defects.append('xsi-type')
             # where the prefix of the xsi:type value is declared (only matters with a target namespace and the
-            # default-namespace style): on the element itself, or on its parent (then it is in scope for the element
-            # only through an ancestor that is not the root when the parent is below the root)
-            n.hoist = rng.random() < 0.3
+            # default-namespace style): on the element itself, on its parent (then it is in scope for the element
+            # only through an ancestor that is not the root when the parent is below the root), or nowhere near:
+            # inherited from an ancestor - or only "visible" on a preceding sibling, which is an unbound prefix
+            r = rng.random()
+            if spec.tns and style != 'prefix':
+                # more often on elements of the lazy depth: there nobody but the lazy driver manages the scope
+                if scope.get('t') == TNS and r < (0.8 if depth == 1 else 0.5):
+                    n.tdecl = 'inherit'
+                    n.rebind_before = rng.random() < 0.7
+                elif leak.get('t') == TNS and r < (0.6 if depth == 1 else 0.4):
+                    n.tdecl = 'inherit'
+                    defects.append('xsi-type-prefix-of-preceding-sibling')
+                else:
+                    n.tdecl = 'parent' if rng.random() < 0.3 else 'self'
         return n
     if e.kind == 'simple':
-        n.text = gen_value(rng, e.stype, perr, defects)
+        n.text = gen_value(rng, e.stype, perr, defects, scope, leak)
         return n
     # complex
     for an, at, req in e.attrs:
@@ -293,6 +345,13 @@ def gen_node(rng, e: El, spec: Spec, perr: float, defects: list, depth: int, tag
                 n.attrs.append((an, 'i%d' % rng.choice([1, 2, 3, 4, 5, 6, 7, 8, 9])))
     if e.mixed and rng.random() < 0.5:
         n.text = 'mixed'
+    def sibling_leak() -> dict:
+        out = dict(leak)
+        for sib in n.cs[-2:]:
+            out.update(sib.decls)
+            if spec.tns and style != 'prefix' and declares_t(sib):
+                out['t'] = TNS
+        return out
     for c in e.children:
         lo, hi = c.occ
         hi2 = lo + 2 if hi is None else hi
@@ -308,7 +367,14 @@ def gen_node(rng, e: El, spec: Spec, perr: float, defects: list, depth: int, tag
             tagname = None
             if c.kind == 'ref' and c.ref == 'h' and rng.random() < 0.5:
                 tagname = 'm'
-            n.cs.append(gen_node(rng, c, spec, perr, defects, depth + 1, tagname))
+            child = gen_node(rng, c, spec, perr, defects, depth + 1, tagname, scope, sibling_leak(), style)
+            if child.rebind_before and n.cs:
+                prev = n.cs[-1]
+                if not prev.xsi_type and not declares_t(prev) and not uses_inherited_t(prev) \
+                        and not any(p == 't' for p, _ in prev.decls):
+                    prev.decls.append(('t', OTHER))      # a rebinding that ends with the preceding sibling
+                    defects.append('rebinding-on-preceding-sibling')
+            n.cs.append(child)
         if rng.random() < perr / 2:
             n.cs.append(N('zz'))
             defects.append('unexpected')
@@ -321,7 +387,7 @@ def gen_node(rng, e: El, spec: Spec, perr: float, defects: list, depth: int, tag
             else:
                 fake = El(w)
                 fake.kind = 'g' if w == 'g' else 'h'
-                n.cs.append(gen_node(rng, fake, spec, max(perr, 0.3), defects, depth + 1, w))
+                n.cs.append(gen_node(rng, fake, spec, max(perr, 0.3), defects, depth + 1, w, scope, sibling_leak(), style))
             defects.append('wild:' + w)
     elif not n.cs and not e.children:
         pass
@@ -351,23 +417,24 @@ def serialise(n: N, spec: Spec, style: str, top=True, mark: Optional[list] = Non
     if mark is not None:
         s += f' n="{mark[0]}"'
         mark[0] += 1
+    own_t = False                      # xmlns:t already written on this element
     if top:
         if spec.tns:
             s += f' xmlns:t="{TNS}"' if style == 'prefix' else f' xmlns="{TNS}"'
-        s += f' xmlns:xsi="{XSI}"'
-    for p, u in n.decls:
-        s += f' xmlns:{p}="{u}"'
-    own_t = False
-    if n.xsi_type:
-        tp = ''
-        if spec.tns:
-            tp = 't:'
-            if style != 'prefix' and not (n.hoist and not top):
+            own_t = style == 'prefix'
+            if style != 'prefix' and n.root_t:
                 s += f' xmlns:t="{TNS}"'
                 own_t = True
-        s += f' xsi:type="{tp}{n.xsi_type}"'
-    if spec.tns and style != 'prefix' and not own_t and any(c.xsi_type and c.hoist for c in n.cs):
-        s += f' xmlns:t="{TNS}"'      # declared here for the children that use it in their xsi:type
+        s += f' xmlns:xsi="{XSI}"'
+    needs_t = spec.tns and style != 'prefix' and declares_t(n)
+    for p, u in n.decls:
+        if p == 't' and (own_t or needs_t or not (spec.tns and style != 'prefix')):
+            continue                   # never two bindings of one prefix on one element; rebinding only in the default style
+        s += f' xmlns:{p}="{u}"'
+    if needs_t and not own_t:
+        s += f' xmlns:t="{TNS}"'      # for its own xsi:type, or for the children that use it in their xsi:type
+    if n.xsi_type:
+        s += f' xsi:type="{'t:' if spec.tns else ''}{n.xsi_type}"'
     seen = set()
     for k, v in n.attrs:
         if k in seen:
@@ -385,8 +452,19 @@ def serialise(n: N, spec: Spec, style: str, top=True, mark: Optional[list] = Non
 def gen_doc(rng, spec: Spec, perr: float = 0.04, style: Optional[str] = None):
     """returns (xml bytes, xml bytes with n= marks, defects, style)"""
     defects: list = []
-    root = gen_node(rng, spec.root, spec, perr, defects, 0)
     style = style or rng.choice(['default', 'prefix'])
+    scope = {'xsi': XSI}
+    root_t = False
+    if spec.tns and style == 'prefix':
+        scope['t'] = TNS
+    elif spec.tns:
+        scope[''] = TNS
+        # the root binds prefix t as well: inherited by xsi:type="t:D" below (more often when its children can use it)
+        root_t = rng.random() < (0.7 if any(c.kind == 'typed' for c in spec.root.children) else 0.3)
+        if root_t:
+            scope['t'] = TNS
+    root = gen_node(rng, spec.root, spec, perr, defects, 0, None, scope, {}, style)
+    root.root_t = root_t
     return serialise(root, spec, style).encode(), serialise(root, spec, style, mark=[0]).encode(), defects, style
 
 
